@@ -489,3 +489,95 @@ def c15_monitor(case, frames):
         if k == "FINAL" and a[4] == "1":
             return ("bar %s still running after the error shut the container down" % a[0], "running-after-error")
     return None
+
+
+# ------------------------------------------------------------------ C12
+def c12_monitor(case, frames):
+    """per render cycle: every synchronised decorator of a bar shown in the frame belongs to exactly one
+    column = same side and same ordinal among the bar's synchronised decorators; the column's width is
+    the maximum its members asked for, and every member got exactly that"""
+    # layout from the scenario: bar -> (number of sync decorators on prepend side, on append side)
+    lay = {}
+    for l in case["hdr"][1:]:
+        f = l.split()
+        i = int(f[1])
+        syncw = int(f[9])
+        nsp = int(f[12]) if len(f) > 13 else 0
+        nsa = int(f[13]) if len(f) > 13 else 0
+        lay[i] = (1 if syncw > 0 else 0, nsp, nsa)
+    tag_of = {}     # channel -> (bar, side, ordinal)
+    cur = None
+    cyclesx = []
+    for seq, k, a in events(case):
+        if k == "CT_RENDERBEGIN":
+            cur = {"sent": {}, "got": {}, "cols": [], "flushed": [], "begin": seq, "err": False, "frame": False}
+            cyclesx.append(cur)
+        elif cur is None:
+            continue
+        elif k == "WC_SENT":
+            w, ch, txt = int(a[0]), a[1], " ".join(a[2:]).strip('"')
+            if ch not in tag_of:
+                m = re.match(r"#(\d+):", txt)
+                if m:
+                    tag_of[ch] = (int(m.group(1)), "p", 0)
+                else:
+                    m = re.match(r"<(\d+)\.([pa])\.(\d+):", txt)
+                    if m:
+                        b = int(m.group(1))
+                        off = lay.get(b, (0, 0, 0))[0] if m.group(2) == "p" else 0
+                        tag_of[ch] = (b, m.group(2), int(m.group(3)) + off)
+            if ch in cur["sent"]:
+                return ("channel %s used twice in the cycle at event %d" % (ch, cur["begin"]), "double-exchange")
+            cur["sent"][ch] = w
+        elif k == "WC_GOT":
+            cur["got"][a[1]] = int(a[0])
+        elif k == "DIST_COLLECTED":
+            cur["cols"].append((int(a[0]), ["ch" + x for x in a[1].split(",")[1:]]))
+        elif k == "CT_FLUSHBAR":
+            cur["flushed"].append(bar(a[0]))
+            if a[-1] == "1":
+                cur["err"] = True
+        elif k in ("CT_RENDERERR",):
+            cur["err"] = True
+        elif k == "CT_FRAME":
+            cur["frame"] = True
+    for c in cyclesx:
+        if c["err"] or not c["frame"]:
+            continue
+        for ch, w in c["sent"].items():
+            if ch not in c["got"]:
+                return ("a width exchange was not answered in the cycle at event %d (%s)" % (c["begin"], ch), "exchange-unanswered")
+        seen = set()
+        for mx, chs in c["cols"]:
+            ws = [c["sent"].get(ch) for ch in chs]
+            if None in ws:
+                return ("column %s collected a channel nobody sent on (cycle at event %d)" % (chs, c["begin"]), "column-foreign-channel")
+            if mx != max(ws + [0]):
+                return ("column %s distributed %d, its members asked for %s" % (chs, mx, ws), "column-width-not-max")
+            for ch in chs:
+                if c["got"].get(ch) != mx:
+                    return ("decorator on %s was given width %s, its column's width is %d" % (ch, c["got"].get(ch), mx), "member-width-differs")
+            tags = [tag_of.get(ch) for ch in chs]
+            if None not in tags:
+                pos = set((t[1], t[2]) for t in tags)
+                if len(pos) != 1:
+                    return ("column %s mixes positions %s" % (chs, sorted(pos)), "column-mixes-positions")
+                bars_in = [t[0] for t in tags]
+                if len(set(bars_in)) != len(bars_in):
+                    return ("column %s holds two decorators of one bar" % (chs,), "column-two-of-one-bar")
+                side, o = tags[0][1], tags[0][2]
+                # every bar of this frame with a decorator at that position is in the column
+                want = set()
+                for b in c["flushed"]:
+                    m0, nsp, nsa = lay.get(b, (0, 0, 0))
+                    n = m0 + nsp if side == "p" else nsa
+                    if o < n:
+                        want.add(b)
+                if set(bars_in) != want:
+                    return ("column (%s,%d) of the cycle at event %d holds bars %s, the frame's bars with that position are %s"
+                            % (side, o, c["begin"], sorted(bars_in), sorted(want)), "column-membership")
+            seen |= set(chs)
+        for ch in c["sent"]:
+            if ch not in seen:
+                return ("decorator on %s exchanged a width outside every column (cycle at event %d)" % (ch, c["begin"]), "exchange-outside-columns")
+    return None
